@@ -128,4 +128,3 @@ func exhaustiveA(run *hx.Run, model *hx.Model, u *universe) {
 	}
 	run.Extra("exhaustive_base_cases", count)
 }
-
